@@ -61,6 +61,9 @@ def valid_configs():
     out.append(dict(kind='fs', version=3, dir='explicit', auth=None, existing='authfs'))
     out.append(dict(kind='fs', version=2, dir='implicit', auth='basic', existing='authfs'))
     out.append(dict(kind='eph', version=3, key=None, single_hop=None, auth=None, existing='authfs'))
+    # the public port given as text
+    out.append(dict(kind='eph', version=3, key=None, single_hop=None, auth=None, port_as_text=True))
+    out.append(dict(kind='fs', version=3, dir='explicit', auth=None, port_as_text=True))
     return out
 
 
@@ -140,23 +143,25 @@ def run_listen(cfg, via, cfg_mode, ch, public_port=80):
                 elif cfg['auth'] == 'stealth':
                     kw['auth'] = AuthStealth(['alice'])
             base = len(sim.commands)
+            # the public port as the caller wrote it: a number, or its text (accepted alike)
+            pp_arg = str(public_port) if cfg.get('port_as_text') else public_port
             try:
                 if via == 'ctor' or config_arg is not impl.cfg or cfg.get('local_port'):
-                    ep = TCPHiddenServiceEndpoint(w.reactor, config_arg, public_port, **kw)
+                    ep = TCPHiddenServiceEndpoint(w.reactor, config_arg, pp_arg, **kw)
                 else:
                     from txtorcon.controller import Tor
                     tor = Tor(w.reactor, impl.proto, _tor_config=impl.cfg)
                     if cfg['kind'] == 'eph' and cfg['auth'] is None:
-                        ep = tor.create_onion_endpoint(public_port, private_key=kw.get('private_key'), version=cfg['version'],
+                        ep = tor.create_onion_endpoint(pp_arg, private_key=kw.get('private_key'), version=cfg['version'],
                                                        single_hop=kw.get('single_hop'))
                     elif cfg['kind'] == 'eph':
-                        ep = tor.create_authenticated_onion_endpoint(public_port, kw['auth'], private_key=kw.get('private_key'), version=cfg['version'])
+                        ep = tor.create_authenticated_onion_endpoint(pp_arg, kw['auth'], private_key=kw.get('private_key'), version=cfg['version'])
                     elif hsdir and cfg['auth']:
-                        ep = tor.create_filesystem_authenticated_onion_endpoint(public_port, hsdir, kw['auth'], version=cfg['version'])
+                        ep = tor.create_filesystem_authenticated_onion_endpoint(pp_arg, hsdir, kw['auth'], version=cfg['version'])
                     elif hsdir:
-                        ep = tor.create_filesystem_onion_endpoint(public_port, hsdir, version=cfg['version'])
+                        ep = tor.create_filesystem_onion_endpoint(pp_arg, hsdir, version=cfg['version'])
                     else:
-                        ep = TCPHiddenServiceEndpoint(w.reactor, config_arg, public_port, **kw)
+                        ep = TCPHiddenServiceEndpoint(w.reactor, config_arg, pp_arg, **kw)
             except Exception as e:
                 viol.append(('valid-configuration-refused', cfg['kind'], '%r: %r' % (cfg, e)))
                 return dict(viol=viol, obs=('refused',), log=log)
